@@ -210,6 +210,7 @@ func (c *Ctx) atReturn(st *State, ret Value, n int) {
 			}()
 		}
 	}
+	c.curRet = ret
 	c.checkCalls(st, fr, "return")
 	c.checkFrame(st, fr)
 	// exit canary: `false` at a normal exit must NOT be provable (some return path is feasible)
